@@ -39,9 +39,9 @@ ASSUMPTIONS = [
     "lines; requests are applied between ticks, single-threaded",
     "trusted base: engine rig (virtual clock, recording hardware), real EngineMessageBuilder.create_control_state_msg",
 ]
-REQUIRED = {"agree_checks": 20000, "gating_accepted": 3000, "gating_rejected": 3000, "runid_checks": 20000,
-            "restart_windows": 200, "stop_progress_checks": 500, "states_seen_Paused": 500, "states_seen_Holding": 500,
-            "paused_and_holding_ticks": 100}
+REQUIRED = {"agree_checks": 300000, "gating_accepted": 10000, "gating_rejected": 50000, "runid_checks": 300000,
+            "restart_windows": 1000, "stop_progress_checks": 800, "states_seen_Paused": 8000, "states_seen_Holding": 8000,
+            "paused_and_holding_ticks": 1500, "new_run_ids": 8000}
 EXHAUSTIVE_ALL = False
 
 USER = ["Start", "Stop", "Pause", "Unpause", "Hold", "Unhold", "Restart"]
